@@ -654,9 +654,9 @@ class _ControlInserter(FragmentTransformer):
             controls = {"sync": controls}
         if "comb" in controls:
             raise ValueError("Cannot add controls on the 'comb' domain")
-        # A control wider than one bit is asserted when it is non-zero, like any other condition.
+        # A control that is not a single unsigned bit is asserted when it is non-zero, like any other condition.
         self.controls = OrderedDict(
-            (domain, control if isinstance(control, Value) and len(control) == 1 else Value.cast(control).bool())
+            (domain, control if isinstance(control, Value) and control.shape() == unsigned(1) else Value.cast(control).bool())
             for domain, control in controls.items())
 
     def on_fragment(self, fragment):
